@@ -21,7 +21,16 @@ RULE8 = (' Round 8 (observers after the fact, non-Exception faults): every faili
          'exception; put / get timeouts) and only then one or two further consumers (get loop / get_batch loop) start; after EVERY run '
          'that ended, the main thread probes the queue again through get / get_nowait / get_batch / iteration (q.exception must still '
          'be set, every probe has to end with the failure, never StopIteration / Empty / [] / a wait); the observed event orders are '
-         'counted (histogram observer) and the promised ones enforced (exit 2)')
+         'counted (histogram observer) and the promised ones enforced (exit 2). Round 10 (queue BACKENDS): the fault events (failing '
+         'item / clean stop / stop with an exception / timeout, rotating) over every buffer the constructors accept (see C04: default, '
+         'queue.Queue, queue.SimpleQueue, asyncio.Queue, from_queue, AsyncIteratorQueue, duck buffers; bounded and unbounded; producers-first '
+         '/ consumers-first / random / PCT), 16 cases per arm (quick), coverage per arm enforced (ran, Empty met, bounded: Full met); 3 more '
+         'model-guided configurations on asyncio.Queue / AsyncIteratorQueue / SimpleQueue; async API under faults: an async producer '
+         '(async_enqueue_from_iterator on the deterministic event loop) whose source raises or that is stopped by maybe_stop() / '
+         'maybe_stop(exc) from a thread, with async and sync consumers, projected onto the LTS (the loop-head read of enqueue_done happens '
+         'one await point later than the LTS fuses it: a producer the LTS leaves in front of its next pull while the real one has seen '
+         'the stop and returned is accepted and counted, histogram backend / async:late_loop_check); new oracle clause: once a stop request '
+         'or a failing producer is complete every other producer pulls at most one more element from its source')
 RULE = ('as C04 plus: each producer source fails with p=0.4 at a random position; an extra thread calls maybe_stop() or '
         'maybe_stop(ValueError) (each p=0.25); timeout configured with p=0.3 (timeout choices drawn with weight 0.1); '
         'non-trivial = a fault event actually happened in the run (a consumer or producer ended with an error, or a stop '
